@@ -406,6 +406,7 @@ var badBodies = map[string][]string{
 	"if-branches":        {`{{if .C}}<a href="{{end}}x`, `{{if .C}}<b title='{{else}}<b>{{end}}`},
 	"range-reentry":      {`{{range .L}}<a href="{{end}}`, `{{range .L}}<textarea>{{end}}`},
 	"nontext-end":        {`<a href="`, `<p>x</p><textarea>`, `<b `, `<a title='x`},
+	"nontext-end-call":   {`<p>{{template "h0" .}}</p><a href="`, `{{template "h0" .}}<b title='x`, `<i>{{template "h0" .}}</i><textarea>`},
 	"action-in-tag":      {`<a {{.V}}>`, `<a{{.V}}>`, `<a title="x" {{.V}}="y">`},
 	"unquoted-value":     {`<a title={{.V}}>`, `<a href=/x/{{.V}}>`},
 	"unknown-element":    {`<foo>{{.V}}</foo>`, `<svg>{{.V}}</svg>`, `<object>{{.V}}</object>`},
